@@ -20,6 +20,8 @@ def gen_table(rng, flavour=None):
     keyed = rng.random() < 0.5
     k1_frozen = rng.random() < (0.5 if flavour == "frozen" else 0.12)
     k2_frozen = rng.random() < (0.5 if flavour == "frozen" else 0.08)
+    if flavour == "frozen_parent":      # frozen holder of non-frozen nested values
+        k1_frozen, k2_frozen = False, True
     decl = lambda: rng.choice(["plain", "Attr", "field"])
     k1 = {"id": 1, "eager": rng.random() < 0.5, "frozen": k1_frozen, "key": 2 if keyed else None, "attrs": [
         {"aid": 2, "ty": STR, "default": rng.choice([None, S(7)]) if not keyed else rng.choice([None, None, S(7)]), "decl": decl()},
@@ -75,6 +77,7 @@ class Hist:
         self.k1 = table[0]
         self.keyed = self.k1["key"] is not None
         self.k1_noarg = not (self.keyed and self.k1["attrs"][0]["default"] is None)
+        self.prefer_nested = False
 
     def add(self, op, kind, fail_at=None):
         self.ops.append((op, fail_at))
@@ -225,10 +228,14 @@ class Hist:
     def scalar_helper(self, x, cid, bad_rate, inplace_rate, fail_rate=0.0):
         rng = self.rng
         a = rng.choice(self.attrs_of(cid))
+        if self.prefer_nested and cid != 1 and rng.random() < 0.6:
+            a = [x for x in self.attrs_of(cid) if x["aid"] == 4][0]
         t, aid = a["ty"], a["aid"]
         h = {"inplace": rng.random() < inplace_rate, "if_": rng.random() > 0.07}
         bad = rng.random() < bad_rate
         kind = rng.choice(["with", "with", "update", "transform", "reset"])
+        if self.prefer_nested and aid == 4:
+            kind = rng.choice(["update", "update", "transform", "with"])
         fail_at = None
         if kind == "with":
             r = rng.random()
@@ -274,6 +281,8 @@ class Hist:
         rng = self.rng
         colls = [a for a in self.attrs_of(cid) if a["ty"][0] in ("list", "dict", "set")]
         a = rng.choice(colls)
+        if self.prefer_nested and rng.random() < 0.6:
+            a = rng.choice([x for x in colls if x["aid"] in (53, 54)])
         t, aid = a["ty"], a["aid"]
         fam, ity = t[0], t[-1]
         h = {"inplace": rng.random() < inplace_rate, "if_": rng.random() > 0.05}
@@ -372,11 +381,21 @@ class Hist:
         return self.add(("helper", x, (kind, None), h), ("inst", cid), fail_at)
 
 
-def gen_history(rng, table, nd, n_ops, bad_rate=0.2, inplace_rate=0.3, fail_rate=0.0, weights=None):
+def gen_history(rng, table, nd, n_ops, bad_rate=0.2, inplace_rate=0.3, fail_rate=0.0, weights=None,
+                prefer_nested=False):
     h = Hist(rng, table, nd)
+    h.prefer_nested = prefer_nested
     w = weights or {"construct": 2, "setattr": 2, "delattr": 1, "scalar": 5, "item": 5, "top": 2, "deepcopy": 1}
     kinds = [k for k, n in w.items() for _ in range(n)]
-    h.construct(rng.choice([2, 2, 3, 1]))
+    if prefer_nested:
+        # a holder whose nested attribute and nested collections are populated
+        x = h.construct(rng.choice([2, 3]))
+        for a in h.attrs_of(2):
+            if a["aid"] in (4, 53, 54) and rng.random() < 0.8:
+                h.add(("helper", x, ("with", a["aid"]), {"pos": [h.value_for(a)]}), ("inst", h.kinds[x][1]))
+                x = len(h.kinds) - 1
+    else:
+        h.construct(rng.choice([2, 2, 3, 1]))
     for _ in range(n_ops):
         insts = h.roots_of(lambda k: k[0] == "inst")
         k = rng.choice(kinds)
